@@ -248,8 +248,10 @@ func (c *Ctx) Finish() int {
 		c.Samples = []interface{}{"(no sample recorded)"}
 	}
 	cov["samples"] = c.Samples
-	cov["states"] = c.States
-	cov["transitions"] = c.Transitions
+	if c.States > 0 && c.Transitions > 0 {
+		cov["states"] = c.States
+		cov["transitions"] = c.Transitions
+	}
 	cov["traces_validated_against_impl"] = c.Traces
 	if c.Level == "translation_validation" {
 		cov["programs"] = c.Programs
